@@ -4,6 +4,7 @@
 package c10
 
 import (
+	"reflect"
 	"encoding/json"
 	"fmt"
 	"sort"
@@ -70,6 +71,8 @@ type Program struct {
 	// Static: the explicit definitions are handed over as ready-made maps to TWO static providers that
 	// share the factories map; every request goes to the first, then to the second provider
 	Static bool `json:"two_static_providers,omitempty"`
+	// Prefilled: the target objects of InjectTo requests already hold an object in every tagged field
+	Prefilled bool `json:"prefilled_targets,omitempty"`
 }
 
 func (p Program) String() string {
@@ -80,6 +83,9 @@ func (p Program) String() string {
 	l = append(l, "|")
 	for _, r := range p.Reqs {
 		l = append(l, r.String())
+	}
+	if p.Prefilled {
+		l = append(l, "(injection targets pre-filled)")
 	}
 	return strings.Join(l, " ")
 }
@@ -316,48 +322,74 @@ type tBoCA struct {
 	Z interface{} `dependency:"A"`
 }
 
+// prefill: the target objects of injections are recycled ones - every tagged field already holds an
+// object (stale) when InjectTo is called. A resolved dependency replaces it; a field the provider leaves
+// alone (optional and missing, or after a failure) is read back as "nothing injected".
+var prefill bool
+var stale = &obj{Src: "stale-object-left-in-the-target"}
+
+func pre(target interface{}) {
+	if !prefill {
+		return
+	}
+	v := reflect.ValueOf(target).Elem()
+	for i := 0; i < v.NumField(); i++ {
+		v.Field(i).Set(reflect.ValueOf(stale))
+	}
+}
+
 func injectDyn(dp app.Injector, tags []string) ([]interface{}, error) {
 	key := strings.Join(tags, ",")
 	get := func(v interface{}) interface{} { return v }
 	switch key {
 	case "A":
 		var s tA
+		pre(&s)
 		err := dp.InjectTo(&s)
 		return []interface{}{get(s.X)}, err
 	case "B":
 		var s tB
+		pre(&s)
 		err := dp.InjectTo(&s)
 		return []interface{}{s.X}, err
 	case "C":
 		var s tC
+		pre(&s)
 		err := dp.InjectTo(&s)
 		return []interface{}{s.X}, err
 	case "?A":
 		var s toA
+		pre(&s)
 		err := dp.InjectTo(&s)
 		return []interface{}{s.X}, err
 	case "?B":
 		var s toB
+		pre(&s)
 		err := dp.InjectTo(&s)
 		return []interface{}{s.X}, err
 	case "?C":
 		var s toC
+		pre(&s)
 		err := dp.InjectTo(&s)
 		return []interface{}{s.X}, err
 	case "A,?B":
 		var s tAoB
+		pre(&s)
 		err := dp.InjectTo(&s)
 		return []interface{}{s.X, s.Y}, err
 	case "?A,B":
 		var s toAB
+		pre(&s)
 		err := dp.InjectTo(&s)
 		return []interface{}{s.X, s.Y}, err
 	case "A,B":
 		var s tAB
+		pre(&s)
 		err := dp.InjectTo(&s)
 		return []interface{}{s.X, s.Y}, err
 	case "B,?C,A":
 		var s tBoCA
+		pre(&s)
 		err := dp.InjectTo(&s)
 		return []interface{}{s.X, s.Y, s.Z}, err
 	}
@@ -403,6 +435,9 @@ func (im *impl) request(r Req) outcome {
 		vs, err := injectDyn(im.dp, r.Fields)
 		out := outcome{ok: err == nil}
 		for _, v := range vs {
+			if v == interface{}(stale) {
+				v = nil
+			}
 			out.vals = append(out.vals, val(v))
 		}
 		return out
@@ -420,7 +455,23 @@ func (im *impl) request(r Req) outcome {
 type finding struct{ kind, clause, detail string }
 
 // runProgram executes a program on both and compares step by step.
+func hasInject(rs []Req) bool {
+	for _, r := range rs {
+		if r.Kind == "inject" {
+			return true
+		}
+	}
+	return false
+}
+
 func runProgram(p Program) (f *finding) {
+	prefill = p.Prefilled
+	defer func() {
+		prefill = false
+		if f != nil && p.Prefilled {
+			f.kind = "prefilled-target/" + f.kind
+		}
+	}()
 	defer func() {
 		if r := recover(); r != nil {
 			f = &finding{"panic", "no request panics", fmt.Sprintf("program %s: panic %v", p, r)}
@@ -728,6 +779,16 @@ func run(c *fw.Ctx) {
 				c.R.Evaluations++
 				if f := runProgram(p); f != nil {
 					report(f, p)
+				}
+				if hasInject(rs) {
+					// the same program with recycled (pre-filled) injection targets
+					pp := p
+					pp.Prefilled = true
+					c.R.Evaluations++
+					c.Count("prefilled_target_programs", 1)
+					if f := runProgram(pp); f != nil {
+						report(f, pp)
+					}
 				}
 				if len(rs) <= 2 {
 					sp := Program{Defs: defs, Reqs: rs, Static: true}
